@@ -234,5 +234,7 @@ Schema(doc) ==
    implements |-> [n \in Names(doc) |-> ImplementsOf(doc, n)],
    q |-> RootOf(doc, "query", "Query"),
    m |-> RootOf(doc, "mutation", "Mutation"),
-   s |-> RootOf(doc, "subscription", "Subscription")]
+   s |-> RootOf(doc, "subscription", "Subscription"),
+   \* a type is built-in exactly when (a part of) it comes from a built-in source - wherever that source stands
+   builtins |-> {n \in Names(doc) : Types(doc)[n].builtin}]
 =============================================================================
